@@ -4378,9 +4378,18 @@ pub(crate) fn truncate_to_height_internal<P: consensus::Parameters>(
 
     // Un-mine transactions. This must be done outside of the last_scanned_height check because
     // transaction entries may be created as a consequence of receiving transparent TXOs.
+    //
+    // A transaction index of 0 is the only record that a transaction is a coinbase transaction,
+    // and an un-mined coinbase transaction is still a coinbase transaction (one that can never
+    // be mined again), so that marker is retained: with `mined_height` unset, the coinbase
+    // maturity condition then keeps its outputs unspendable instead of letting them pass as
+    // never-expiring zero-confirmation outputs.
     conn.execute(
         "UPDATE transactions
-         SET block = NULL, mined_height = NULL, tx_index = NULL, confirmed_unmined_at_height = NULL
+         SET block = NULL,
+             mined_height = NULL,
+             tx_index = CASE WHEN tx_index = 0 THEN 0 ELSE NULL END,
+             confirmed_unmined_at_height = NULL
          WHERE mined_height > :height",
         named_params![":height": u32::from(truncation_height)],
     )?;
